@@ -98,6 +98,12 @@ def check(repo, tier):
                 continue
             l2rules.relative_cut_obligations(run, 'C18', 'D3', repo, sc, scen, mods, expected=({thr} if variant == 'amuset_hosvd' else None), only_fns={'truncated_svd', 'amuset_hosvd'})
             l2rules.whole_matrix_call_obligations(run, 'C18', 'D2', repo, sc, scen, mods | {'data_driven.transform'})
+            # the caller's index sets select snapshots as NumPy indexing does (an entry -1 is the last snapshot)
+            for e in sc.events('index-mode'):
+                if e['mode'] == 'clip' and l2rules.in_modules(e, mods):
+                    where, cons, f_, ln = l2rules.ev_where(repo, e, mods)
+                    run.oblige('D1', (where, cons, 'index mode'), False)
+                    run.add(Finding('C18', 'D1', where, cons, f'{scen}: {e["detail"]}: an index set that counts from the end selects snapshot 0 repeatedly', f_, ln))
             roots_ = [c_ for t_ in (res[1] if isinstance(res[1], list) else [res[1]]) if hasattr(t_, '_attrs') for c_ in t_._attrs.get('cores', [])]
             cr = l2rules.cut_respected(sc, roots_)
             run.oblige('D3', (entry, scen, 'cut respected'), not cr)
